@@ -186,7 +186,7 @@ def _hit(t, name):
     t.advance_time_and_run(0.01)
 
 
-OPS = ["coin_q", "coin_d", "service", "start", "end_game", "wait", "toggle", "award", "enable_credit", "enable_free"]
+OPS = ["coin_q", "coin_d", "service", "start", "end_game", "wait", "toggle", "award", "enable_credit", "enable_free", "double_start"]
 
 
 def _apply(S, t, led, op, i):
@@ -217,6 +217,24 @@ def _apply(S, t, led, op, i):
             raise Violation("start-accepted-iff-price-available", "_request_to_start_game", "full price available (units %s) but %d player(s) added" % (u_before, added))
         if not want and added != 0:
             raise Violation("start-accepted-iff-price-available", "_player_add_request", "no full price (units %s) but %d player(s) added" % (u_before, added))
+    elif op == "double_start":
+        # two start presses that reach MPF in the same loop iteration (bouncing button, two presses in one serial read)
+        m.switch_controller.process_switch("s_start", 1, logical=True)
+        m.switch_controller.process_switch("s_start", 0, logical=True)
+        m.switch_controller.process_switch("s_start", 1, logical=True)
+        m.switch_controller.process_switch("s_start", 0, logical=True)
+        t.advance_time_and_run(0.5)
+        was_in_game = led.in_game
+        want = 0
+        for _ in range(2):
+            if led.start():
+                want += 1
+            if not was_in_game:
+                break           # no game yet: both presses ask for the same game start, one game with one player results
+        added = (m.game.num_players if m.game else 0) - players_before
+        if added != want:
+            raise Violation("start-accepted-iff-price-available", "_player_add_request", "two start presses in one loop iteration with %s unit(s) (price %s): %d player(s) added, the balance pays for %d" % (
+                _units(t) if False else led.units + want * led.upg, led.upg, added, want))
     elif op == "end_game":
         if m.game:
             m.game.end_game()
@@ -307,9 +325,11 @@ def scenarios(tier):
                  dict(cfg="b", prefix=["coin_d", "wait", "toggle", "start"], n=5, alphabet=["wait", "toggle"]),
                  dict(cfg="b", boot_free=True, prefix=["toggle"], n=3, alphabet=["coin_q", "coin_d", "service", "start"]),
                  dict(cfg="b", prefix=["enable_credit"], n=3, alphabet=["coin_q", "coin_d", "service", "start", "enable_credit"]),
-                 dict(cfg="a", prefix=["coin_d", "enable_free", "enable_free", "enable_credit"], n=6, alphabet=["coin_q", "start", "award"])]
+                 dict(cfg="a", prefix=["coin_d", "enable_free", "enable_free", "enable_credit"], n=6, alphabet=["coin_q", "start", "award"]),
+                 dict(cfg="b", prefix=["coin_d", "start", "coin_d", "double_start"], n=5, alphabet=["double_start", "start", "coin_q"]),
+                 dict(cfg="a", prefix=["coin_q", "double_start"], n=4, alphabet=["double_start", "start", "coin_q"])]
     else:
-        alpha = ["coin_q", "coin_d", "service", "start", "end_game", "wait", "toggle", "award", "enable_credit", "enable_free"]
+        alpha = ["coin_q", "coin_d", "service", "start", "end_game", "wait", "toggle", "award", "enable_credit", "enable_free", "double_start"]
         hist = [dict(cfg=c, prefix=[p, q], n=4, alphabet=alpha) for c in "abc" for p in ("coin_d", "coin_q", "service")
                 for q in ("coin_d", "coin_q", "start", "wait")]
         hist += [dict(cfg="b", boot_free=True, prefix=[p], n=4, alphabet=alpha) for p in ("toggle", "enable_credit", "start")]
